@@ -57,12 +57,45 @@ fn zip_offset_seeds(_t: Tier) -> Vec<Seed> {
             v.push(seed(&format!("zip_offset(5 records, compress={compress}, checksum={checksum})"), bytes, 0));
         }
     }
+    // (coverage audit) the three presets (they differ in the offset-index parameters the header carries), and a store whose
+    // offset index spans more than one block of the index (64 / 128 offsets per block): 70 one-byte records, an empty one in the middle
+    for (label, cfg) in [
+        ("performance_optimized", ZipOffsetBlobStoreConfig::performance_optimized()),
+        ("compression_optimized", ZipOffsetBlobStoreConfig::compression_optimized()),
+        ("security_optimized", ZipOffsetBlobStoreConfig::security_optimized()),
+    ] {
+        let Ok(mut b) = ZipOffsetBlobStoreBuilder::with_config(cfg) else { continue };
+        let mut ok = true;
+        for r in [&b"abcdefgh"[..], b"", b"xy"] {
+            ok &= b.add_record(r).is_ok();
+        }
+        let Ok(store) = b.finish() else { continue };
+        let mut bytes = Vec::new();
+        if ok && store.save_to_writer(&mut bytes).is_ok() {
+            v.push(seed(&format!("zip_offset(3 records, preset {label})"), bytes, 0));
+        }
+    }
+    for checksum in [0u8, 2] {
+        let mut cfg = ZipOffsetBlobStoreConfig::default();
+        cfg.compress_level = 0;
+        cfg.checksum_level = checksum;
+        let Ok(mut b) = ZipOffsetBlobStoreBuilder::with_config(cfg) else { continue };
+        let mut ok = true;
+        for i in 0..70u8 {
+            ok &= if i == 35 { b.add_record(b"") } else { b.add_record(&[i]) }.is_ok();
+        }
+        let Ok(store) = b.finish() else { continue };
+        let mut bytes = Vec::new();
+        if ok && store.save_to_writer(&mut bytes).is_ok() {
+            v.push(seed(&format!("zip_offset(70 records, checksum={checksum})"), bytes, 0));
+        }
+    }
     v
 }
 
 /// load, then read everything the store offers (a loader that accepts a file must not crash when the content is read)
 fn zip_offset_read_all(s: &ZipOffsetBlobStore) {
-    let n = s.len().min(64);
+    let n = s.len().min(80);
     let mut acc = 0usize;
     for id in 0..n as u32 + 1 {
         acc += s.contains(id) as usize;
@@ -72,7 +105,12 @@ fn zip_offset_read_all(s: &ZipOffsetBlobStore) {
         if let Ok(d) = s.get(id) {
             acc += d.len();
         }
+        // (coverage audit) the CompressedBlobStore view reads the offset index on its own
+        use zipora::blob_store::CompressedBlobStore;
+        acc += s.compressed_size(id).ok().flatten().unwrap_or(0);
+        acc += s.compression_ratio(id).ok().flatten().map(|r| r as usize).unwrap_or(0);
     }
+    std::hint::black_box((s.stats().blob_count, s.memory_usage(), s.config().compress_level));
     std::hint::black_box(acc);
 }
 
@@ -111,8 +149,21 @@ fn reorder_parse(b: &[u8], _n: usize) -> bool {
             // the entries are decoded lazily while iterating: walk a bounded prefix (the header may
             // legitimately announce up to usize::MAX/100 run-length-encoded elements)
             let mut acc = 0usize;
+            std::hint::black_box((m.size(), m.eof(), m.len(), m.size_hint()));
             for x in m.by_ref().take(4096) {
                 acc = acc.wrapping_add(x);
+            }
+            // (coverage audit) a second pass after rewind, interleaved with the non-panicking observers
+            if m.rewind().is_ok() {
+                let mut k = 0usize;
+                while !m.eof() && k < 4096 {
+                    acc = acc.wrapping_add(m.current()).wrapping_add(m.index());
+                    if m.next().is_none() {
+                        break;
+                    }
+                    k += 1;
+                }
+                std::hint::black_box((m.size(), m.eof(), m.len()));
             }
             std::hint::black_box(acc);
             true
@@ -141,6 +192,24 @@ fn mmap_vec_seeds<T: Copy + 'static + From<u8>>(_t: Tier) -> Vec<Seed> {
             v.push(seed(&format!("mmap_vec({label})"), b, 0));
         }
     }
+    // (coverage audit) files the writer leaves after it GREW (capacity 8 -> 12: file extended, header rewritten), after
+    // pop + shrink_to_fit (capacity == length), after resize + truncate (stale elements behind the length)
+    let histories: [(&str, fn(&mut MmapVec<T>) -> bool); 3] = [
+        ("grown to 12", |mv| (0..12u8).all(|i| mv.push(T::from(i + 1)).is_ok())),
+        ("pop + shrink_to_fit", |mv| (0..5u8).all(|i| mv.push(T::from(i + 1)).is_ok()) && mv.pop().is_some() && mv.shrink_to_fit().is_ok()),
+        ("resize 3 + truncate 2", |mv| mv.resize(3, T::from(9)).is_ok() && mv.truncate(2).is_ok()),
+    ];
+    for (label, f) in histories {
+        // (sync_on_write and the other MmapVecConfig switches leave byte-identical files: one configuration)
+        let b = bytes_via_file(|p| {
+            let cfg = MmapVecConfig { initial_capacity: 8, ..MmapVecConfig::default() };
+            let Ok(mut mv) = MmapVec::<T>::create(p, cfg) else { return false };
+            f(&mut mv) && mv.sync().is_ok()
+        });
+        if let Some(b) = b {
+            v.push(seed(&format!("mmap_vec({label})"), b, 0));
+        }
+    }
     v
 }
 
@@ -154,6 +223,16 @@ fn mmap_vec_parse<T: Copy + 'static>(b: &[u8], _n: usize) -> bool {
                 std::hint::black_box(mv.get(n - 1).copied());
                 std::hint::black_box(mv.as_slice().last().copied());
             }
+            // (coverage audit) every element through every read path, one past the end, and the derived figures
+            let mut cnt = 0usize;
+            for i in 0..n.min(4096) {
+                cnt += mv.get(i).is_some() as usize;
+            }
+            cnt += (&mv).into_iter().take(4096).count();
+            cnt += mv.as_slice().iter().take(4096).count();
+            std::hint::black_box((cnt, mv.get(n).is_some(), mv.capacity(), mv.is_empty(), mv.memory_usage()));
+            let st = mv.stats();
+            std::hint::black_box((st.memory_efficiency(), st.wasted_space(), st.needs_compaction(0.5)));
             true
         }
         Err(_) => false,
@@ -201,6 +280,16 @@ fn plain_parse(b: &[u8], _n: usize) -> bool {
     match PlainBlobStore::new(&dir) {
         Ok(st) => {
             std::hint::black_box(st.len());
+            // (coverage audit) read every record the scan found (one file per case), and the id the name parses to
+            use zipora::blob_store::IterableBlobStore;
+            let mut acc = 0usize;
+            let named: Option<u32> = std::str::from_utf8(b).ok().and_then(|s| s.parse().ok());
+            for id in st.iter_ids().take(4).chain(named) {
+                acc += st.contains(id) as usize;
+                acc += st.size(id).ok().flatten().unwrap_or(0);
+                acc += st.get(id).map(|d| d.len()).unwrap_or(0);
+            }
+            std::hint::black_box((acc, st.stats().blob_count));
             true
         }
         Err(_) => false,
